@@ -185,6 +185,7 @@ def _engines(out, spec, system, seeds, dt, nsteps, gil_tmax=0.15, gil_iter=120, 
             elif kind == "gillespie":
                 logb = [0.0] * n          # log of the bound of P(entry untouched by every event so far) under the CME event law
                 legal = True
+                logeff, seen_eff = {}, set()    # the same bound per enabled EVENT (effect on the state), and the events seen
                 for k in range(len(d) - 1):
                     chs = cme.channels(spec, d[k], chem)
                     tab, a0 = cme.effect_table(chs)
@@ -199,6 +200,10 @@ def _engines(out, spec, system, seeds, dt, nsteps, gil_tmax=0.15, gil_iter=120, 
                                      % (what, sorted(tab)))[:900]))
                         legal = False
                         break
+                    seen_eff.add(dk)
+                    if a0 > 0:
+                        for ek, a in tab.items():
+                            logeff[ek] = logeff.get(ek, 0.0) + (math.log1p(-a / a0) if a < a0 else -1e9)
                     if a0 > 0:
                         touch = {}
                         for name, prop, eff in chs:
@@ -208,6 +213,15 @@ def _engines(out, spec, system, seeds, dt, nsteps, gil_tmax=0.15, gil_iter=120, 
                         for q, a in touch.items():
                             logb[q] += math.log1p(-min(a / a0, 1.0)) if a < a0 else -1e9
                 if legal and len(d) > 1:
+                    # an enabled event that changes the state (the null event of a fully chemostated reaction is left out: an
+                    # engine may skip it) is taken with probability a_e / a0 at every step it is enabled in
+                    for ek in sorted(logeff):
+                        if ek and ek not in seen_eff and logeff[ek] <= math.log(FROZEN_EPS):
+                            out.append(("C03:gillespie:enabled-event-never-taken",
+                                        "seed %d: the event with effect %r (entry, delta) is enabled but never taken in %d events: "
+                                        "P <= %.3g under the master equation with the chemostat exemption"
+                                        % (seed, ek, len(d) - 1, math.exp(max(logeff[ek], -700.0)))))
+                            break
                     # a channel that feeds an unflagged entry (e.g. the outgoing jumps of a chemostated neighbour) is taken
                     # with its CME probability a_c / a0: P(never in all these events) <= exp(logb)
                     for q in range(n):
